@@ -204,7 +204,17 @@ fn gen_dist(rng: &mut Rng) -> f64 {
 }
 
 fn gen_path(rng: &mut Rng) -> Vec<Coord<f64>> {
-    let n = *rng.pick(&[0usize, 1, 2, 2, 3, 4, 5, 8]);
+    // now and then a long track (more vertices than any block size an implementation might sum by)
+    let n = if rng.chance(1, 40) { rng.range(1025, 1300) as usize } else { *rng.pick(&[0usize, 1, 2, 2, 3, 4, 5, 8]) };
+    if n > 1000 {
+        let mut p = Coord { x: gen_lon(rng), y: gen_lat(rng, false) * 0.5 };
+        let mut v = vec![p];
+        for _ in 1..n {
+            p = Coord { x: wrap_lon(p.x + (rng.unit() - 0.3) * 0.02), y: (p.y + (rng.unit() - 0.5) * 0.02).clamp(-89.0, 89.0) };
+            v.push(p);
+        }
+        return v;
+    }
     let mut v: Vec<Coord<f64>> = Vec::new();
     for i in 0..n {
         let c = if i > 0 && rng.chance(1, 4) {
